@@ -1,6 +1,10 @@
 package main
 
-import "time"
+import (
+	"fmt"
+	"strings"
+	"time"
+)
 
 // schedScenarios returns the sched scenarios of a property for a tier.
 func schedScenarios(prop, tier string) []*Scenario {
@@ -11,6 +15,10 @@ func schedScenarios(prop, tier string) []*Scenario {
 		return c08Scenarios(tier)
 	case "C07":
 		return c07Scenarios(tier)
+	case "C02":
+		return c02Scenarios(tier)
+	case "C09":
+		return c09Scenarios(tier)
 	}
 	return nil
 }
@@ -38,14 +46,60 @@ func listItems(prop, tier string) []Item {
 	return items
 }
 
-func seqJobs(prop, tier string) []string { return nil }
+func seqJobList(prop, tier string) []*SeqJob {
+	switch prop {
+	case "C03":
+		return c03Jobs(tier)
+	}
+	return nil
+}
 
-func runSeq(prop, tier, name string, shard, nshards int, budget time.Duration) *WorkerResult {
-	return &WorkerResult{Scenario: name, Infra: "no seq job " + prop + "/" + name}
+func seqJobs(prop, tier string) []string {
+	var out []string
+	for _, j := range seqJobList(prop, tier) {
+		out = append(out, j.Name)
+	}
+	return out
+}
+
+func findSeqJob(prop, tier, name string) *SeqJob {
+	for _, t := range []string{tier, "thorough", "quick"} {
+		if t == "" {
+			continue
+		}
+		for _, j := range seqJobList(prop, t) {
+			if j.Name == name {
+				return j
+			}
+		}
+	}
+	return nil
+}
+
+func runSeq(prop, tier, name string, shard, nshards int, budget time.Duration) interface{} {
+	j := findSeqJob(prop, tier, name)
+	if j == nil {
+		return &WorkerResult{Scenario: name, Infra: "no seq job " + prop + "/" + name}
+	}
+	return runSeqJob(j, shard, nshards, budget)
 }
 
 func runRace(prop, tier, name string) *WorkerResult {
 	return &WorkerResult{Scenario: name, Infra: "no race job " + prop + "/" + name}
 }
 
-func replaySeq(v *Violation) int { return 2 }
+func replaySeq(v *Violation) int {
+	j := findSeqJob(v.Property, v.Params["tier"], v.Scenario)
+	if j == nil || j.Replay == nil {
+		fmt.Printf("no seq job %s/%s\n", v.Property, v.Scenario)
+		return 2
+	}
+	fmt.Println("case:", strings.Join(v.Ops, " ; "))
+	cl, det := j.Replay(v.Ops)
+	if cl == "" {
+		fmt.Println("replay: no violation on this tree")
+		return 0
+	}
+	fmt.Printf("VIOLATION property=%s clause=%q\n%s\n", v.Property, cl, det)
+	return 1
+}
